@@ -1110,7 +1110,11 @@ func (c *Compiler) compileList(node *ast.List) error {
 func (c *Compiler) compileMap(node *ast.Map) error {
 	items := node.Items()
 	count := len(items)
-	for k, v := range items {
+	// Entries are compiled in source order, so that their expressions are
+	// evaluated left to right and the outcome for duplicate keys does not
+	// depend on Go's random map iteration order.
+	for _, k := range node.Keys() {
+		v := items[k]
 		switch k := k.(type) {
 		case *ast.String:
 			if err := c.compile(k); err != nil {
